@@ -29,6 +29,8 @@ type topo struct {
 	Servers    int
 	// Collide: same-tag DNSKEY candidates per signature in the padded zone (manysig variant 2)
 	Collide int
+	// Fallback: the failover middleware's fallback server, when the pipe has one
+	Fallback *l3.Server
 	// Pad: bad RRSIGs in front of every genuine one in the padded zone
 	Pad int
 }
